@@ -139,7 +139,9 @@ func run(t *testing.T, tape *simrt.Tape) *hx.Outcome {
 			return nil
 		}
 		var dm *common.Daemon
+		s.Procs = 1 // worker pools of the real backend size themselves by GOMAXPROCS: a per-run constant here
 		if realBackend {
+			s.Procs = 1 + s.Tape.Draw("cfg.real", 3)
 			reg := simreg.New(s, rcfg)
 			var err error
 			dm, err = common.NewDaemon(s, filepath.Join(root, "stargz"), img, fcfg, reg, nil, s.Tape.Draw("cfg.real", 2) == 1)
